@@ -89,6 +89,8 @@ HARMLESS = [
     ('C17', 'sc3/synth/bus.py', "        self._server.addr.send_msg('/c_fill', self._index, channels, value)", "        index = self._index\n        self._server.addr.send_msg('/c_fill', index, channels, value)", 'local for the bus index in fill'),
     ('C13', 'sc3/seq/patterns/eventpatterns.py', "                event = inevent.copy()\n                event.update(self._stream_dict_next(stream_dict))", "                event = inevent.copy()\n                values = self._stream_dict_next(stream_dict)\n                event.update(values)", 'local for the values of a Pbind pass'),
     ('C04', 'sc3/synth/synthdef.py', "                        index = cn.index\n                        for i, val in enumerate(values):\n                            varcontrols[index + i] = val", "                        first = cn.index\n                        for i, val in enumerate(values):\n                            varcontrols[first + i] = val", 'local renamed in the variant writer'),
+    ('C08', 'sc3/base/clock.py', "        with cls._tick_cond:\n            cls._run_sched = False\n            cls._tick_cond.notify()\n        cls._thread.join()", "        with cls._tick_cond:\n            cls._tick_cond.notify_all()\n            cls._run_sched = False\n        cls._thread.join()", 'AppClock._stop: flag and notification exchanged inside the critical section'),
+    ('C11', 'sc3/base/stream.py', "                clock = clock or self._clock\n                clock.play(self, quant)", "                where = clock or self._clock\n                where.play(self, quant)", 'local renamed in Routine.resume'),
 ]
 
 BREAKING = [
@@ -185,6 +187,10 @@ BREAKING = [
     ('C02', 'sc3/synth/synthdef.py', "        self._topological_sort()\n        self._index_ugens()\n        # UGen.buildSynthDef", "        self._index_ugens()\n        self._topological_sort()\n        # UGen.buildSynthDef", 'units indexed before the final sort'),
     ('C02', 'sc3/synth/synthdef.py', "            arr[index] = value", "            arr[index - 1] = value", 'constants written one slot off'),
     ('C15', 'sc3/base/stream.py', "        b = self.b.next(inval)\n        return self.selector(a, b)", "        b = self.b.next(inval)\n        return self.selector(b, a)", 'binary operator stream swaps its operands'),
+    ('C08', 'sc3/base/clock.py', "        with cls._tick_cond:\n            cls._run_sched = False\n            cls._tick_cond.notify()\n        cls._thread.join()", "        with cls._tick_cond:\n            cls._tick_cond.notify()\n        cls._run_sched = False\n        cls._thread.join()", 'AppClock._stop: flag lowered after the critical section'),
+    ('C08', 'sc3/base/clock.py', "            cls._sched_cond.notify_all()\n        cls._thread.join()", "            cls._sched_cond.notify_all()\n            cls._thread.join()", 'SystemClock._sched_stop joins the thread while holding its lock'),
+    ('C08', 'sc3/base/clock.py', "    def clear(self):\n        while not self.queue.empty():", "    def clear(self):\n        if not self.queue.empty():", 'Scheduler.clear pops one entry only'),
+    ('C11', 'sc3/base/stream.py', "            if self.state == self.State.Paused:\n                self.state = self.State.Suspended\n                clock = clock", "            if self.state != self.State.Done:\n                self.state = self.State.Suspended\n                clock = clock", 'resume() revives routines that were not paused'),
 ]
 
 
